@@ -157,11 +157,12 @@ def mods():
         from sc3.base import builtins as bi, absobject as aob, functions as fn, \
             stream as stm, operand as opd, utils as utl
         from sc3.seq import pattern as ptt, event as evt
-        from sc3.seq.patterns import listpatterns as lp, filterpatterns as fp
+        from sc3.seq.patterns import listpatterns as lp, filterpatterns as fp, \
+            funcpatterns as up
         from sc3.synth import ugen as ugn
         from sc3.base.main import main
         _m.update(bi=bi, aob=aob, fn=fn, stm=stm, opd=opd, utl=utl, ptt=ptt,
-                  evt=evt, lp=lp, fp=fp, ugn=ugn, main=main)
+                  evt=evt, lp=lp, fp=fp, up=up, ugn=ugn, main=main)
     return _m
 
 
@@ -170,8 +171,8 @@ FLOATS = [-6.5, -2.5, -1.0, -0.5, 0.0, 0.25, 0.5, 1.0, 1.5, 2.5, 3.75, 8.0]
 
 NUMBER_KINDS = ['int', 'float']
 FUNC_KINDS = ['func', 'cfunc']
-STREAM_KINDS = ['routine', 'cstream', 'pstream', 'fstream']
-PATTERN_KINDS = ['pattern', 'cpattern']
+STREAM_KINDS = ['routine', 'cstream', 'pstream', 'fstream', 'istream']
+PATTERN_KINDS = ['pattern', 'cpattern', 'ipattern', 'ifuncn']
 CHAN_KINDS = ['chan', 'nchan', 'aparam']
 PLAIN_LIST_KINDS = ['list', 'tuple', 'nested']
 OPERAND_KINDS = ['operand', 'rest']
@@ -241,6 +242,22 @@ def make(kind, rng, x0, ints_only=False, allow_empty=True):
             return -r, ('seq', [-v for v in vals])
         c = n()
         return r + c, ('seq', [v + c for v in vals])
+    if kind in ('istream', 'ipattern'):
+        # values computed from the input value of each pull
+        vals = [n() for _ in range(rng.randint(2, 4))]
+        k = rng.choice([1, 2, -1, 3])
+
+        def body(inval):
+            for v in vals:
+                inval = yield iv(inval) * k + v
+        nf = ('seq', [iv(INVAL[0]) * k + v for v in vals])
+        if kind == 'istream':
+            return m['stm'].Routine(body), nf
+        return m['up'].Prout(body), nf
+    if kind == 'ifuncn':
+        k, c, cnt = rng.choice([1, 2, -1]), n(), rng.randint(2, 4)
+        return (m['up'].Pfuncn(lambda inval: iv(inval) * k + c, cnt),
+                ('seq', [iv(INVAL[0]) * k + c] * cnt))
     if kind == 'pstream':        # stream object made from a pattern
         vals = [n() for _ in range(rng.randint(2, 4))]
         return m['stm'].stream(m['lp'].Pseq(list(vals), 1)), ('seq', list(vals))
@@ -293,6 +310,17 @@ def make(kind, rng, x0, ints_only=False, allow_empty=True):
     raise ValueError(kind)
 
 
+# the input value handed to every next() / send() of an evaluation; operands
+# of the kinds istream / ipattern / ifuncn compute their values from it, so
+# next(op s, inval) == op(next(s, inval)) is only satisfied when the lifted
+# object passes inval on to its operands on every pull.
+INVAL = [None]
+
+
+def iv(inval):
+    return 0 if inval is None else inval
+
+
 CALL_BY_KEYWORD = [False]   # functions take their argument as f(x=x0)
 # how a composed *pattern* is turned into values: 'stream' (stream(p), the
 # __stream__ path) or embedded in another pattern / through the embedding
@@ -308,9 +336,13 @@ class _EmbedStream:
 
     def __init__(self, gen, StopStream):
         self.gen, self.StopStream = gen, StopStream
+        self.started = False
 
     def next(self, inval=None):
         try:
+            if not self.started:
+                self.started = True
+                return next(self.gen)
             return self.gen.send(inval)
         except StopIteration:
             raise self.StopStream from None
@@ -337,14 +369,14 @@ def evaluate(obj, x0, depth=0):
             elif mode == 'pn':
                 obj = m['stm'].stream(m['fp'].Pn(obj, 1))
             elif mode == 'embed':
-                obj = _EmbedStream(m['stm'].embed(obj, None), m['stm'].StopStream)
+                obj = _EmbedStream(m['stm'].embed(obj, INVAL[0]), m['stm'].StopStream)
             else:
                 obj = m['stm'].stream(obj)
         if isinstance(obj, (m['stm'].Stream, _EmbedStream)):
             out = []
             for _ in range(K):
                 try:
-                    v = obj.next(None)
+                    v = obj.next(INVAL[0])
                 except m['stm'].StopStream:
                     break
                 out.append(evaluate(v, x0, depth + 1))
